@@ -29,6 +29,8 @@ func init() {
 			{Name: "ident-entry-dropped-in-class", File: f, Old: "\t\t\t\t\tif d.IsClass {\n\t\t\t\t\t\tonames = append(onames, \".\"+expr.Name)\n\t\t\t\t\t} else {", New: "\t\t\t\t\tif d.IsClass {\n\t\t\t\t\t\tif expr.IsExported() {\n\t\t\t\t\t\t\tonames = append(onames, \".\"+expr.Name)\n\t\t\t\t\t\t}\n\t\t\t\t\t} else {", Expect: "candidate/Ident:one-entry"},
 			{Name: "index-alphabet-differs", File: f, Old: "\tindexTable = \"0123456789abcdefghijklmnopqrstuvwxyz\"", New: "\tindexTable = \"123456789abcdefghijklmnopqrstuvwxyz0\"", Expect: "naming/index-alphabet"},
 			{Name: "table-joined-with-semicolon", File: f, Old: "\t\t\t\toval := strings.Join(onames, \",\")", New: "\t\t\t\toval := strings.Join(onames, \";\")", Expect: "table/joined"},
+			{Name: "candidate-queued-only-if-known", File: f, Old: "\t\t\t\t\t\tonames = append(onames, expr.Name)\n\t\t\t\t\t\tctx.lbinames = append(ctx.lbinames, expr.Name)", New: "\t\t\t\t\t\tonames = append(onames, expr.Name)\n\t\t\t\t\t\tif _, known := syms[expr.Name]; known {\n\t\t\t\t\t\t\tctx.lbinames = append(ctx.lbinames, expr.Name)\n\t\t\t\t\t\t}", Expect: "candidate/Ident:queued-for-loading"},
+			{Name: "separator-ignores-receiver", File: f, Old: "\tif strings.ContainsRune(name, '_') || (recv != nil && strings.ContainsRune(recv.Name, '_')) {\n\t\tsep = \"__\"\n\t}\n\ttyp := \"\"", New: "\tif strings.ContainsRune(name, '_') {\n\t\tsep = \"__\"\n\t}\n\ttyp := \"\"", Expect: "naming/separator"},
 			{Name: "selector-entry-without-dot", File: f, Old: "\t\t\t\t\tonames = append(onames, \".\"+expr.Sel.Name)", New: "\t\t\t\t\tonames = append(onames, expr.Sel.Name)", Expect: "candidate/SelectorExpr:entry"},
 		},
 	})
@@ -171,6 +173,62 @@ func runC10(c *core.Check) {
 			c.Decide(okIdx && decl, "candidate", "FuncLit:declared-at-own-index", cc.Pos(), "declared as overloadFuncName(name.Name, idx) with its own type and body", "a function-literal candidate is not declared under overloadFuncName(name, idx) with the loop's own index (and its own Type/Body): the default name gogen derives for table position idx refers to another literal")
 		}
 	}
+	// (2b) a named candidate is queued for loading before the table is initialised, wherever it is declared: the Ident arm
+	// appends its name to ctx.lbinames on every accepting non-class path, unconditionally (initGopPkg loads the queued
+	// names before gogen.InitThisGopPkgEx reads the table; a candidate that is not in scope then is silently dropped)
+	for _, s2 := range ts.Body.List {
+		cc := s2.(*ast.CaseClause)
+		if len(cc.List) != 1 || core.ExprStr(cc.List[0]) != "*ast.Ident" {
+			continue
+		}
+		queued := false
+		ast.Inspect(&ast.BlockStmt{List: cc.Body}, func(n ast.Node) bool {
+			is, ok := n.(*ast.IfStmt)
+			if !ok || nows(core.ExprStr(is.Cond)) != "d.IsClass" || is.Else == nil {
+				return true
+			}
+			el, ok := is.Else.(*ast.BlockStmt)
+			if !ok {
+				return true
+			}
+			for _, st := range el.List { // top level of the non-class branch: no further condition
+				if nows(stmtStr(st)) == "ctx.lbinames=append(ctx.lbinames,expr.Name)" {
+					queued = true
+				}
+			}
+			return true
+		})
+		c.Decide(queued, "candidate", "Ident:queued-for-loading", cc.Pos(), "a named candidate is appended to ctx.lbinames unconditionally", "a named function candidate is no longer queued for loading (ctx.lbinames) on every accepting path: a candidate declared after the overload declaration (or in a later file) is not in scope when gogen reads the table and is silently dropped — calls dispatch to another candidate or fail to compile")
+	}
+	// (2c) the table constant's name: `Gopo_<name>` / `Gopo_<T>_<name>`, with the separator doubled as soon as the
+	// function name OR the receiver's type name contains an underscore (gogen splits the name at the separator)
+	if on := core.FindFuncDecl(pk, "overloadName"); on != nil {
+		okSep := false
+		ast.Inspect(on.Body, func(n ast.Node) bool {
+			is, ok := n.(*ast.IfStmt)
+			if !ok {
+				return true
+			}
+			sets := false
+			for _, st := range is.Body.List {
+				if nows(stmtStr(st)) == `sep="__"` {
+					sets = true
+				}
+			}
+			if !sets {
+				return true
+			}
+			cond := nows(core.ExprStr(is.Cond))
+			if strings.Contains(cond, "strings.ContainsRune(name,'_')") && strings.Contains(cond, "strings.ContainsRune(recv.Name,'_')") && strings.Contains(cond, "||") {
+				okSep = true
+			}
+			return true
+		})
+		c.Decide(okSep, "naming", "separator", on.Pos(), "the separator is doubled when the function name or the receiver's type name contains `_`", "cl.overloadName no longer doubles the separator when the function name OR the receiver's type name contains an underscore: for `func (my_foo).mul = (…)` the constant `Gopo_my_foo_mul` is split by gogen at the first `_` into type `my`, and the overload table is never built")
+	} else {
+		c.Bad("anchor", "cl.overloadName", 0, "not found")
+	}
+
 	// (3) the table constant
 	txt := nows(nodeText(pf.Body))
 	c.Decide(strings.Contains(txt, `oval:=strings.Join(onames,",");`), "table", "joined", pf.Pos(), "the table is strings.Join(onames, \",\")", "the overload table constant is no longer the comma-joined candidate list gogen splits")
